@@ -21,6 +21,7 @@ import Cog.Builder.VeneerLemmas
 import Cog.Builder.WTLemmas
 import Cog.Builder.FrameLemmas
 import Cog.Builder.DerivedWT
+import Cog.Builder.WTLocal
 import Cog.Builder.Witness
 namespace Cog.Builder
 open Cog.IR
@@ -441,6 +442,36 @@ theorem C17_option_rule_preserves (ss : Schemas) (sel : OSelC) (r : ORule) (hs :
     (st st' : St) (h : applyORule ss sel r st = .ok st') (hw : WTs ss st.builders = true) :
     WTs ss st'.builders = true :=
   applyORule_preserves ss sel r (fun b o out ho ha => simple_action_spec ss b b.for_.ty o r out hs ho ha) st st' h hw
+
+/-- The options `FromAST` derives for fields without constraints are `FreshOpt`s (non-vacuity of
+    the three theorems below; `IsOptionFor` is what C16_cover establishes for every derived option). -/
+theorem C17_derived_option_fresh (f : Field) (o : Opt) (h : IsOptionFor f o) (hc : scalarConstraints f.ty = []) :
+    ∃ a asg c last, FreshOpt o a asg c last := by
+  obtain ⟨_, _, ⟨a, ha, _, hat⟩, _, asg, hasg, ⟨i, hp, _, hit, hidx, hhint, _⟩, ⟨c, hv, _, _⟩, _, hcons, _⟩ := h
+  refine ⟨a, asg, c, i, ha, hasg, hv, by simp [noIndex, hp, hidx], ?_, by simp [hp], by simpa using hhint, by rw [hit, hat]⟩
+  unfold ConstraintsOf at hcons
+  rw [hc] at hcons
+  cases hcs : asg.constraints with
+  | nil => rfl
+  | cons x xs => rw [hcs] at hcons; simp [All2] at hcons
+
+/-- `array_to_append`, `map_to_index`, `unfold_boolean` applied to a fresh well-typed option — the
+    normal use — return well-typed options. (The failures recorded above all need an earlier rule
+    that shared the argument pointer, added an index item, or turned the target into an append.) -/
+theorem C17_array_to_append_preserves_fresh (ss : Schemas) (root : Ty) (o : Opt) (a : Argument) (asg : Assignment)
+    (c : ArgCell) (last : PathItem) (hf : FreshOpt o a asg c last) (hw : optWT ss root o = true) (out : ActOut)
+    (h : arrayToAppendAction o = .ok out) : out.opts.all (optWT ss root) = true :=
+  arrayToAppend_fresh_WT ss root o a asg c last hf hw out h
+
+theorem C17_map_to_index_preserves_fresh (ss : Schemas) (root : Ty) (o : Opt) (a : Argument) (asg : Assignment)
+    (c : ArgCell) (last : PathItem) (hf : FreshOpt o a asg c last) (hw : optWT ss root o = true) (out : ActOut)
+    (h : mapToIndexAction o = .ok out) : out.opts.all (optWT ss root) = true :=
+  mapToIndex_fresh_WT ss root o a asg c last hf hw out h
+
+theorem C17_unfold_boolean_preserves_fresh (ss : Schemas) (root : Ty) (t f : String) (o : Opt) (a : Argument)
+    (asg : Assignment) (c : ArgCell) (last : PathItem) (hf : FreshOpt o a asg c last) (hw : optWT ss root o = true)
+    (out : ActOut) (h : unfoldBooleanAction t f o = .ok out) : out.opts.all (optWT ss root) = true :=
+  unfoldBoolean_fresh_WT ss root t f o a asg c last hf hw out h
 
 /-- all files' rules are of the kinds for which preservation is proved -/
 def simpleFiles (files : List VFile) : Bool :=
